@@ -16,7 +16,7 @@ import (
 )
 
 type poolEvent struct {
-	Ev  string `json:"ev"`  // get | put | wrap-same | wrap-new
+	Ev  string `json:"ev"`  // get | put | wrap-same | wrap-new | dirty (a released buffer was written to)
 	Buf int    `json:"buf"` // small per-pool buffer number
 	Len int    `json:"len"`
 	Cap int    `json:"cap"`
@@ -27,6 +27,31 @@ type poolLog struct {
 	ids    map[*bytes.Buffer]int
 	keep   []*bytes.Buffer
 	maxCap int
+	inPool map[*bytes.Buffer]putSnap // released buffers and what they looked like when they were poisoned
+}
+
+type putSnap struct{ cap, n int }
+
+// dirty: a buffer that was released (and poisoned) has been written to or grown since.
+func (lg *poolLog) dirty(buf *bytes.Buffer) bool {
+	snap, ok := lg.inPool[buf]
+	if !ok {
+		return false
+	}
+	if buf.Cap() != snap.cap {
+		return true
+	}
+	b := buf.Bytes()
+	b = b[:cap(b)]
+	if len(b) < snap.n {
+		return true
+	}
+	for _, c := range b[len(b)-snap.n:] {
+		if c != 0xDB {
+			return true
+		}
+	}
+	return false
 }
 
 var (
@@ -46,7 +71,7 @@ func init() {
 		}
 		lg := poolLogs[key]
 		if lg == nil {
-			lg = &poolLog{ids: map[*bytes.Buffer]int{}}
+			lg = &poolLog{ids: map[*bytes.Buffer]int{}, inPool: map[*bytes.Buffer]putSnap{}}
 			poolLogs[key] = lg
 		}
 		id, ok := lg.ids[buf]
@@ -54,6 +79,13 @@ func init() {
 			id = len(lg.ids) + 1
 			lg.ids[buf] = id
 			lg.keep = append(lg.keep, buf)
+		}
+		if ev == "get" && poolPoison {
+			// (the pool has Reset the buffer: Bytes() starts at the array's beginning)
+			if lg.dirty(buf) {
+				lg.events = append(lg.events, poolEvent{Ev: "dirty", Buf: id, Len: buf.Len(), Cap: buf.Cap()})
+			}
+			delete(lg.inPool, buf)
 		}
 		lg.events = append(lg.events, poolEvent{Ev: ev, Buf: id, Len: buf.Len(), Cap: buf.Cap()})
 		if buf.Cap() > lg.maxCap {
@@ -66,6 +98,7 @@ func init() {
 			for i := range b {
 				b[i] = 0xDB
 			}
+			lg.inPool[buf] = putSnap{cap: buf.Cap(), n: len(b)}
 		}
 	}
 }
@@ -89,6 +122,12 @@ func takePoolLog(tc *vanguard.Transcoder) ([]poolEvent, int) {
 	delete(poolWatch, key)
 	if lg == nil {
 		return []poolEvent{}, 0
+	}
+	// whatever is still in the pool must be as it was released
+	for buf := range lg.inPool {
+		if lg.dirty(buf) {
+			lg.events = append(lg.events, poolEvent{Ev: "dirty", Buf: lg.ids[buf], Len: buf.Len(), Cap: buf.Cap()})
+		}
 	}
 	return lg.events, lg.maxCap
 }
